@@ -37,7 +37,17 @@ func (r *Reader) Get(k []byte) (v []byte, err error) {
 }
 
 func (r *Reader) MultiGet(keys [][]byte) ([][]byte, error) {
-	return store.MultiGet(r, keys)
+	// store.MultiGet of upsidedown_store_api v1.0.2 indexes into a
+	// zero-length slice and panics for any non-empty key list
+	vals := make([][]byte, len(keys))
+	for i, key := range keys {
+		val, err := r.Get(key)
+		if err != nil {
+			return nil, err
+		}
+		vals[i] = val
+	}
+	return vals, nil
 }
 
 func (r *Reader) PrefixIterator(k []byte) store.KVIterator {
